@@ -105,7 +105,7 @@ def corpus_shadowed(e):
     case.env, case.rng, case.w = e, rng, w
     case.hosts = ["h1", "h2"]
     case.daemons = {h: worldmod.Daemon(e, h) for h in case.hosts}
-    case.marker_state, case.tracked, case.view = {}, set(), {}
+    case.marker_state, case.tracked, case.view, case.initq = {}, set(), {}, {}
     case.nodes, case.groups, case.files = [n1, n2, n3], [g1, g2, g3], [f]
     case.set_tools("rsync-only", "ok")
     for _ in range(4):
